@@ -11,6 +11,7 @@ import (
 	"regexp"
 	"sort"
 	"strconv"
+	"strings"
 	"sync"
 
 	"verifharness/drive/tl"
@@ -108,9 +109,10 @@ func Main(args []string) error {
 
 	type job struct {
 		a   *tl.Asset
-		rt  *project.RepTruth
+		rt  *project.RepTruth // the representation whose timeline decides availability (video for audio requests)
 		cs  cfgSel
 		sd  int64
+		au  *project.RepTruth // non-nil: the requests are for this audio representation
 	}
 	var jobs []job
 	for _, a := range env.Assets {
@@ -131,7 +133,15 @@ func Main(args []string) error {
 				if rt.Kind == "image" && cs.mode != "number" {
 					continue
 				}
-				jobs = append(jobs, job{a, rt, cs, rng.Int63()})
+				jobs = append(jobs, job{a, rt, cs, rng.Int63(), nil})
+			}
+		}
+		// audio follows the video (reference) segment's availability; a subset of the configurations
+		if a.Audio != nil && a.Audio.SampleDur > 0 {
+			for ci, cs := range cfgs {
+				if ci%3 == int(a.Video.TS)%3 || *thorough {
+					jobs = append(jobs, job{a, a.Video, cs, rng.Int63(), a.Audio})
+				}
 			}
 		}
 		if len(samples) < 3 {
@@ -159,7 +169,12 @@ func Main(args []string) error {
 			ato = 1
 		}
 		c := tl.Cfg{Mode: cs.mode, SNR: cs.snr, AST: cs.ast, TSBD: cs.tsbd, AtoMS: ato}
-		emit(tl.HeaderE(idx, a, rt, c, nil))
+		var extra tr.E
+		if j.au != nil {
+			// the audio segment ends up to one frame after the video segment: in that slack either answer is accepted
+			extra = tr.E{"kind": "audio", "rep": j.au.ID, "slack": j.au.SampleDur*1000/j.au.TS + 1}
+		}
+		emit(tl.HeaderE(idx, a, rt, c, extra))
 		N := int64(rt.N)
 		ns := []int64{0, int64(rng.Intn(int(N))), N - 1, N, 3*N + int64(rng.Intn(int(N)))}
 		far := int64(1_750_000_000)*rt.TS/rt.L*N + int64(rng.Intn(int(N)))
@@ -200,6 +215,14 @@ func Main(args []string) error {
 			}
 			sort.Slice(list, func(x, y int) bool { return list[x] < list[y] })
 			url := tl.SegURL(c, a, rt, n)
+			if j.au != nil {
+				v := n + c.EffSNR()
+				if c.Mode == "time" {
+					v = tl.AudioStartTicks(rt, j.au, n)
+				}
+				pat := strings.ReplaceAll(strings.ReplaceAll(j.au.MediaPat, "$Number$", fmt.Sprint(v)), "$Time$", fmt.Sprint(v))
+				url = c.Prefix(a.Name) + "/" + pat
+			}
 			k, i := n/N, n%N
 			loopMS := rt.L * 1000 / rt.TS
 			for _, t := range list {
@@ -217,7 +240,7 @@ func Main(args []string) error {
 		}
 		// C04.notfound: number below startNumber, unknown representation, unknown asset
 		now := fmt.Sprint(cs.ast*1000 + 100_000)
-		if cs.mode != "time" && c.EffSNR() > 0 {
+		if cs.mode != "time" && c.EffSNR() > 0 && j.au == nil {
 			u := tl.SegURL(c, a, rt, -1) + "?nowMS=" + now
 			emit(tr.E{"ev": "nf", "what": "number below startNumber", "st": env.S.Get(u).Status, "url": u})
 		}
